@@ -18,6 +18,8 @@ def main():
     seed = int(os.environ.get("VERIF_SEED", "0") or 0)
     prop = args.prop.upper()
     mod = importlib.import_module(f"harness.props.{prop.lower()}")
+    if args.replay:
+        os.environ["VERIF_KEEP_REPLAYS"] = "1"
     ctx = Ctx(prop, tier, seed, getattr(mod, "LEVEL", "proof"))
     try:
         if args.replay:
